@@ -605,6 +605,12 @@ class MessageInterfaceUDP6(RecvmsgDatagramProtocol, interfaces.MessageInterface)
 
     def datagram_msg_received(self, data, ancdata, flags, address):
         """Implementation of the RecvmsgDatagramProtocol interface, called by the transport."""
+        if flags & socket.MSG_TRUNC:
+            # Larger than the transport's receive buffer: what was read may
+            # look like a complete message with a shorter payload
+            self.log.warning("Ignoring truncated datagram from %s", address)
+            return
+
         pktinfo = None
         for cmsg_level, cmsg_type, cmsg_data in ancdata:
             if cmsg_level == socket.IPPROTO_IPV6 and cmsg_type == socket.IPV6_PKTINFO:
